@@ -171,9 +171,13 @@ Definition entries := list (string * (nat * Z)).
 Fixpoint lookup (e : entries) (k : string) : option (nat * Z) :=
   match e with [] => None | (k', v) :: r => if String.eqb k' k then Some v else lookup r k end.
 
-(* out.update_(inv): every key of inv must exist in out (KeyError otherwise); storages kept, contents copied *)
+(* out.update_(inv) (base.py::update_, the `_items_list(..., default="intersection")` + `_foreach_copy_` route): the
+   leaves the two objects have in common are copied in place (storages kept); a key of inv that out does not have is
+   silently SKIPPED as soon as there is at least one common leaf; only when there is no common leaf at all does the
+   per-leaf fallback raise KeyError for the unknown key (nothing to do when inv is empty) *)
+Definition has_key (e : entries) (k : string) : bool := match lookup e k with Some _ => true | None => false end.
 Definition update_inplace (out inv : entries) : option entries :=
-  if forallb (fun kv => match lookup out (fst kv) with Some _ => true | None => false end) inv
+  if existsb (fun kv => has_key out (fst kv)) inv || (match inv with [] => true | _ => false end)
   then Some (map (fun kv => match lookup inv (fst kv) with
                             | Some (_, c) => (fst kv, (fst (snd kv), c))
                             | None => kv end) out)
